@@ -717,7 +717,7 @@ type LockState struct {
 
 // Lock acquires l exclusively on behalf of the calling goroutine (a point).
 func (s *Sched) Lock(l *LockState) {
-	if l.Class == "" {
+	if l.Class == "" || l.Class == "?" {
 		l.Class = ClassOf(unsafe.Pointer(l))
 	}
 	s.Point(OpLock, l.Class, func() bool { return l.writer == nil && l.readers == 0 }, func(t *Thread) {
@@ -732,7 +732,7 @@ func (s *Sched) TryLock(l *LockState) bool {
 	t := s.cur()
 	s.mu.Lock()
 	defer s.mu.Unlock()
-	if l.Class == "" {
+	if l.Class == "" || l.Class == "?" {
 		l.Class = ClassOf(unsafe.Pointer(l))
 	}
 	if l.writer != nil || l.readers != 0 {
@@ -763,7 +763,7 @@ func (s *Sched) Unlock(l *LockState) {
 
 // RLock acquires l shared (a point).
 func (s *Sched) RLock(l *LockState) {
-	if l.Class == "" {
+	if l.Class == "" || l.Class == "?" {
 		l.Class = ClassOf(unsafe.Pointer(l))
 	}
 	s.Point(OpRLock, l.Class, func() bool { return l.writer == nil }, func(t *Thread) {
@@ -785,7 +785,7 @@ func (s *Sched) TryRLock(l *LockState) bool {
 	t := s.cur()
 	s.mu.Lock()
 	defer s.mu.Unlock()
-	if l.Class == "" {
+	if l.Class == "" || l.Class == "?" {
 		l.Class = ClassOf(unsafe.Pointer(l))
 	}
 	if l.writer != nil {
